@@ -6,7 +6,7 @@ import "github.com/tonkeeper/tongo/zzvrt"
 
 // Hashing an arbitrary, possibly ill-formed, two-cell tree (as the parser can return it: any type
 // byte, any level mask, any data length) gives a hash or an error -- never a run-time panic.
-func VH_C08_hash_total(childBytes int, rootType int) {
+func VH_C08_cell_hash_total(childBytes int, rootType int) {
 	child := &Cell{bits: BitString{buf: zzvrt.NondetBytes("child", childBytes), cap: 1023, len: 8 * childBytes}}
 	child.cellType = CellType(zzvrt.NondetByte("ctype"))
 	zzvrt.Assume(child.cellType <= MerkleUpdateCell)
